@@ -111,9 +111,14 @@ impl<R: Round> Context<R> {
 
             let guard_bits = self.precision.bit_len() * 2; // heuristic
             let rev_context = Context::<R::Reverse>::new(self.precision + guard_bits);
-            let pow = rev_context.powi(base, exp.into()).value();
-            let inv = rev_context.repr_div(Repr::one(), pow.repr);
-            let repr = inv.and_then(|v| self.repr_round(v));
+            let pow = rev_context.powi(base, exp.into());
+            let pow_is_exact = matches!(pow, Exact(_));
+            let inv = rev_context.repr_div(Repr::one(), pow.value().repr);
+            let repr = match inv.and_then(|v| self.repr_round(v)) {
+                // the result is not exact if the power was already rounded
+                Exact(v) if !pow_is_exact => Inexact(v, Rounding::NoOp),
+                other => other,
+            };
             return repr.map(|v| FBig::new(v, *self));
         }
         if exp.is_zero() {
